@@ -5,7 +5,7 @@ from mc.core import Acc
 
 PROP = 'C43'
 LEVEL = 'exploration'
-RULE = ('fp.{sqrt,exp,log,power,sin,cos,tan,sinh,cosh,tanh,asin,acos,atan,asinh,acosh,atanh,cbrt,cospi,sinpi} on: all doubles with <= 5 '
+RULE = ('fp.{sqrt,exp,log,power,sin,cos,tan,sinh,cosh,tanh,asin,acos,atan,asinh,acosh,atanh,cbrt,cospi,sinpi} (those of them that the fp context provides: asinh/acosh/atanh are absent from fp in this tree and are counted as not provided) on: all doubles with <= 5 '
         'significant bits x binary exponents -40..40 (stepped for complex pairs), both signs, +-0, tiny/huge values, negative arguments of '
         'sqrt/log/cbrt, |x|>1 for asin/acos/atanh, x<1 for acosh, exact (half-)integers for cospi/sinpi including odd integers in '
         '[2^52,2^53), complex pairs (8 directions).  Checks: result type is float/complex; out-of-domain real arguments give the principal '
@@ -53,7 +53,23 @@ def complex_args():
 
 def tasks(tier, seed):
     th = tier == 'thorough'
-    return [('fn', n, th) for n in FUNCS] + [('power', th)]
+    from mpmath import fp
+    # the fp context of this tree has no asinh/acosh/atanh at all (AttributeError): there is nothing to compare for them; the names stay in
+    # FUNCS so that they are checked as soon as the context provides them
+    return [('fn', n, th) for n in FUNCS if hasattr(fp, n)] + [('power', th), ('provided',)]
+
+
+def t_provided(task):
+    from mpmath import fp
+    acc = Acc()
+    for n in FUNCS:
+        acc.evals += 1
+        if hasattr(fp, n):
+            acc.nontrivial += 1
+        else:
+            acc.count('not_provided_by_fp'); acc.extra.setdefault('missing_in_fp', []).append(n)
+    acc.sample(['provided', [n for n in FUNCS if hasattr(fp, n)]])
+    return acc
 
 
 def close(g, w, mp):
